@@ -91,6 +91,35 @@ func narrowingRule(c *Ctx, rule string, pkgs map[string]bool, min int) {
 				fmt.Sprintf("bounded by a dominating guard (<= %d)", limit))
 		})
 	}
+	// widening after multiplying: uint64(len(x)*8) computes the product in the
+	// platform's int, which is 32 bits wide on the module's GOARCH=386 target —
+	// the product wraps before it is widened (uint64(len(x))*8 does not)
+	for _, f := range p.SortedFuncs(core.Product) {
+		if !pkgs[core.Rel(core.PkgOf(f))] {
+			continue
+		}
+		allInstrs(f, func(ins ssa.Instruction) {
+			cv, ok := ins.(*ssa.Convert)
+			if !ok {
+				return
+			}
+			fb, ok1 := cv.X.Type().Underlying().(*types.Basic)
+			tb, ok2 := cv.Type().Underlying().(*types.Basic)
+			if !ok1 || !ok2 || !(fb.Kind() == types.Int || fb.Kind() == types.Uint) || !(tb.Kind() == types.Int64 || tb.Kind() == types.Uint64) {
+				return
+			}
+			bo, isB := cv.X.(*ssa.BinOp)
+			if !isB || !(bo.Op == token.MUL || bo.Op == token.SHL) || !lenDerivedRaw(bo, 0) {
+				return
+			}
+			key := fmt.Sprintf("%s/%s/%s widened after multiplying", rule, core.FuncID(f), valName(cv.X))
+			cx := bounds.NewCtx(f)
+			facts := cx.FactsToLin(guard.InstrFacts(ins))
+			okB, _ := cx.Entails(facts, bounds.Konst(1<<31-1).Add(cx.Lin(bo), -1))
+			r.Check(okB, rule, key, p.Pos(ins.Pos()), "a length is multiplied in the platform int and only then widened to 64 bits: on 32-bit targets (GOARCH=386 is a CI target of this module) the product wraps for inputs of 2^28 bytes or more, so the encoded bit length differs from the standard's",
+				"product bounded below 2^31 by a dominating guard")
+		})
+	}
 	r.Counts["length_narrowings"] = n
 	if min > 0 {
 		r.Min(rule, min)
